@@ -34,8 +34,19 @@ int main(void){
   uk_note_text("base", bt, bn, sizeof(CH)); uk_note_text("ref", rt, rn, sizeof(CH));
   compat = uk_choice(2, "compat");
   ro_uri(&B); ro_uri(&R);
+  mm_armed = 1;
   rc = U(uriAddBaseUriExMm)(&T, &R, &B, compat ? URI_RESOLVE_IDENTICAL_SCHEME_COMPAT : URI_RESOLVE_STRICTLY, &mm);
+  mm_armed = 0;
   rw_uri(&B); rw_uri(&R);
+#ifdef FAILING
+  if (mm_failed){
+    uk_assert(rc == URI_ERROR_MALLOC, "C14: resolution with a failed allocation returns URI_ERROR_MALLOC");
+    U(uriFreeUriMembersMm)(&T, &mm);                       /* the caller's ordinary cleanup of the output URI */
+    U(uriFreeUriMembersMm)(&R, &mm); U(uriFreeUriMembersMm)(&B, &mm);
+    uk_assert(uk_live() == 0, "C14: nothing stays allocated after a failed resolution and cleanup of the output");
+    uk_cover("alloc-failure-injected"); return 0;
+  }
+#endif
   os_split(bt, bn, &bs); os_split(rt, rn, &rs);
 #ifdef KF_C06_NOFIX_ABS
   /* known finding: absolute-path / own-scheme / own-authority... see known_findings.json */
